@@ -139,6 +139,48 @@ fn comp_into(h: &Huffman, xs: &[u8], bug: bool, cap: usize) -> (Option<Vec<u8>>,
     (r, ok)
 }
 
+/// The same calls through a `&mut Vec<u8>` buffer (results are committed with `advance`): on success
+/// the vector holds exactly the output, on a capacity error nothing is committed (length 0); the
+/// capacity that counts is the vector's actual one.
+fn vec_commit_compress(h: &Huffman, xs: &[u8], bug: bool, cap: usize, full: &[u8], o: &mut Oracle) {
+    let mut v: Vec<u8> = Vec::with_capacity(cap);
+    let real = v.capacity();
+    let ok = {
+        let r = if bug { h.compress_bug(xs, &mut v) } else { h.compress(xs, &mut v) };
+        r.map(|s| s.to_vec()).ok()
+    };
+    let good = match &ok {
+        Some(out) => full.len() <= real && &out[..] == full && &v[..] == full,
+        None => full.len() > real && v.is_empty(),
+    };
+    if !good || v.capacity() != real {
+        o.fail(
+            "C07/vec-buffer-commit",
+            format!("compress bug={} cap={} real_cap={} need={} ok={} vec_len={}", bug as u8, cap, real, full.len(), ok.is_some(), v.len()),
+        );
+    }
+}
+
+fn vec_commit_decompress(h: &Huffman, input: &[u8], cap: usize, expect: &Dec, o: &mut Oracle) {
+    let mut v: Vec<u8> = Vec::with_capacity(cap);
+    let real = v.capacity();
+    if real != cap {
+        return; // the allocator rounded up: the expected result is for `cap`
+    }
+    let ok = h.decompress(input, &mut v).map(|s| s.to_vec()).ok();
+    let good = match (&ok, expect) {
+        (Some(out), Dec::Ok(e)) => out == e && &v[..] == &e[..],
+        (None, Dec::Capacity) => v.is_empty(),
+        _ => false,
+    };
+    if !good || v.capacity() != real {
+        o.fail(
+            "C07/vec-buffer-commit",
+            format!("decompress cap={} input={} slice_result={} vec_ok={} vec_len={}", cap, short(input), dec_show(expect), ok.is_some(), v.len()),
+        );
+    }
+}
+
 fn repr_strings(h: &Huffman) -> Vec<String> {
     h.repr().into_iter().map(|s| s.to_string()).collect()
 }
@@ -385,6 +427,7 @@ impl Ctx {
                 let (r, guards) = comp_into(&T, &xs, bug, cap);
                 let (c, cb, l, lb) = self.compress_all(&xs, o);
                 let (full, need) = if bug { (cb, lb) } else { (c, l) };
+                vec_commit_compress(&T, &xs, bug, cap, &full, o);
                 let good = guards
                     && match &r {
                         Some(v) => cap >= need && *v == full,
@@ -413,7 +456,9 @@ impl Ctx {
             ["d", cap, h] => {
                 let cap: usize = cap.parse().ok()?;
                 let xs = parse_hex(h)?;
-                match self.decompress_checked(&xs, cap, None, true, o) {
+                let r = self.decompress_checked(&xs, cap, None, true, o);
+                vec_commit_decompress(&T, &xs, cap, &r, o);
+                match r {
                     Dec::Ok(v) => format!("ok {}", to_hex(&v)),
                     Dec::Capacity => "capacity".to_string(),
                     Dec::Invalid => "invalid".to_string(),
@@ -552,7 +597,13 @@ impl Ctx {
             Err(msg) => {
                 if fs.len() == 256 {
                     o.count("fq_panic");
-                    o.fail("C07/from-frequencies-panic", format!("from_frequencies panicked: {}", msg));
+                    // D16 is the ArrayVec capacity panic of the 24-entry stack; any other panic is new
+                    let tag = if msg.contains("CapacityError") || msg.contains("insufficient capacity") {
+                        "C07/from-frequencies-panic"
+                    } else {
+                        "C07/from-frequencies-other-panic"
+                    };
+                    o.fail(tag, format!("from_frequencies panicked: {}", msg));
                 } else {
                     // documented precondition (`assert!(frequencies.len() == 256)`), not a finding
                     o.count("fq_bad_length_panic");
